@@ -197,7 +197,7 @@ def python_scenario(args):
     y["options"] = dict({"wrap_fortran": False, "wrap_c": False, "wrap_python": True, "wrap_lua": False, "PY_array_arg": "list"}, **more)
     # left out: by-value class result, const class reference result, class-pointer free function, nested namespace (they do not build or crash: C05 / known findings),
     # the const / non-const pair (no documented rule says which one Python reaches)
-    y["declarations"] = [d for d in y["declarations"] if not d["decl"].startswith(("Cls valCls", "void takes", "const Cls &crefCls"))]
+    y["declarations"] = [d for d in y["declarations"] if not d["decl"].startswith(("Cls valCls", "void takes", "int byVal", "const Cls &crefCls"))]
     for d in y["declarations"]:
         if d["decl"] == "namespace ns":
             d["declarations"] = [x for x in d["declarations"] if not x["decl"].startswith("namespace")]
